@@ -157,7 +157,7 @@ class Recon:
             if isinstance(node.slice, ast.Slice):
                 lo = rec(node.slice.lower) if node.slice.lower else S.C(None)
                 hi = rec(node.slice.upper) if node.slice.upper else S.C(None)
-                idx = ("slice", lo, hi)
+                idx = ("slice", lo, hi) if node.slice.step is None else ("slice", lo, hi, rec(node.slice.step))
             else:
                 idx = rec(node.slice)
             return self.subscript(base, idx, ctx, depth)
